@@ -393,6 +393,18 @@ func checkComplete(c *conf.Conf, root *domain, skipDom *domain, skipKey, skipLin
 			if gs := c.GetStringWithDef(p+"<\x01absent>", "dflt"); gs != "dflt" {
 				return fmt.Sprintf("absent key in %q returned %q instead of the default", p, gs)
 			}
+			// a sub-domain is not a key: asked for as one, the key is absent
+			for _, sub := range d.order {
+				if _, isKey := d.kv[sub]; isKey || strings.ContainsAny(sub, "/<>") {
+					continue
+				}
+				if gs := c.GetStringWithDef(p+"<"+sub+">", "dflt"); gs != "dflt" {
+					return fmt.Sprintf("GetStringWithDef(%q) = %q: %q is a sub-domain, there is no such key, the default is due", p+"<"+sub+">", gs, sub)
+				}
+				if gi := c.GetIntWithDef(p+"<"+sub+">", 7777); gi != 7777 {
+					return fmt.Sprintf("GetIntWithDef(%q) = %d: %q is a sub-domain, there is no such key, the default is due", p+"<"+sub+">", gi, sub)
+				}
+			}
 		} else {
 			// listings must at least contain every undamaged entry
 			have := map[string]int{}
